@@ -423,22 +423,24 @@ func main() {
 		"typed/type *struct":          2000,
 		"typed/type any":              2000,
 		"typed/type struct{string,int,*int,int,float64,[]int}": 2000,
-		"typed/type float64":   2000,
-		"typed/type uint8":     2000,
-		"typed/type struct{}":  2000,
-		"typed/type [2]string": 2000,
-		"typed/type [3]int32":  2000,
-		"typed/s_pop_depth2":   20000,
-		"typed/h_pop_depth2":   20000,
-		"typed/s_remove":       20000,
-		"typed/s_fix":          20000,
-		"typed/h_remove":       10000,
-		"typed/h_fix":          10000,
-		"typed/g_pop":          20000,
-		"typed/g_remove":       20000,
-		"typed/g_fix":          20000,
-		"typed/cases_depth3":   20000,
-		"typed/drained":        100000,
+		"typed/type float64":           2000,
+		"typed/type uint8":             2000,
+		"typed/type struct{}":          2000,
+		"typed/type [2]string":         2000,
+		"typed/type [3]int32":          2000,
+		"typed/type fmt.Stringer":      2000,
+		"typed/nil_interface_elements": 5000,
+		"typed/s_pop_depth2":           20000,
+		"typed/h_pop_depth2":           20000,
+		"typed/s_remove":               20000,
+		"typed/s_fix":                  20000,
+		"typed/h_remove":               10000,
+		"typed/h_fix":                  10000,
+		"typed/g_pop":                  20000,
+		"typed/g_remove":               20000,
+		"typed/g_fix":                  20000,
+		"typed/cases_depth3":           20000,
+		"typed/drained":                100000,
 	} {
 		r.Require(k, v)
 	}
